@@ -67,6 +67,9 @@ def build(d):
 
 
 def run(scn):
+    if scn.get("variant") == "core":
+        from ..corebench import run_core
+        return run_core(scn, ("c07", "c01.final_image", "c01.missing_response", "c05.hang"))
     d = scn["dut"]
     dut, pf, pt = build(d)
     sim = Sim(dut, {"sys": 10000})
@@ -218,10 +221,13 @@ def gen_mem(rng):
             "rl1": rng.randint(wl1 + 1, 14), "extra": gen_extra(rng)}
 
 
-def gen_ops(rng, n, ratio, up, nbytes, mode, aw_words):
+def gen_ops(rng, n, ratio, up, nbytes, mode, aw_words, wide=None):
     """Address orders inside and across wide words; read/write mix; byte enables; hints; delays."""
     nwide = rng.choice([1, 1, 2, 3, 6])
-    wide = rng.sample(range(0, max(8, aw_words)), nwide)
+    if wide is None:
+        top = (1 << 12) // (ratio if up else 1)
+        pool = list(range(0, max(8, aw_words))) + [top - 1, top - 2, top // 2, top // 2 - 1]
+        wide = rng.sample(pool, nwide)
     order = rng.choice(["asc", "desc", "rep", "rand", "stride", "mix"])
     wmix = {"both": rng.choice([0.0, 0.3, 0.5, 0.7, 1.0]), "write": 1.0, "read": 0.0}[mode]
     dl = rng.choice(["zero", "zero", "small", "gaps"])
@@ -278,7 +284,72 @@ def gen_ops(rng, n, ratio, up, nbytes, mode, aw_words):
     return ops
 
 
+def gen_core_variant(rng, tier, cdc=False):
+    """Converted (and/or clock-crossed) user port created by crossbar.get_port() on the whole core, working in a
+    private address region next to ordinary native ports."""
+    from .. import coregen
+    core, info = coregen.gen_core(rng, nports=rng.choice([1, 2, 3]), nranks=1)
+    amap = coregen.amap_of(core, info)
+    ndw = info["data_bytes"] * 8
+    conv = (not cdc) or rng.random() < 0.6
+    up = rng.random() < 0.6
+    ratio = 1
+    udw = ndw
+    if conv:
+        if up:
+            ratio = rng.choice([r for r in (2, 4, 8, 16, 32) if ndw // r >= 8] or [1])
+            udw = ndw // ratio
+        else:
+            ratio = rng.choice([r for r in (2, 4, 8) if ndw * r <= 1024])
+            udw = ndw * ratio
+        if ratio == 1:
+            conv = False
+    pc = core["ports"][0]
+    pc["data_width"] = udw
+    pc["reverse"] = conv and rng.random() < 0.2
+    clocks = None
+    if cdc:
+        pc["cd"] = "usr0"
+        sysp = core["clk_period_ps"]
+        usrp = rng.choice([sysp * 2, sysp * 3, sysp // 2, sysp // 4, sysp, sysp + 13, rng.randint(sysp // 8, sysp * 8)])
+        clocks = {"usr0": {"period": usrp, "phase": rng.randrange(usrp)}}
+    nb = 1 << info["bankbits"]
+    nrows = 1 << info["rowbits"]
+    # private region of the user port: a few rows nobody else touches
+    priv = [(0, rng.randrange(nb), r) for r in rng.sample(range(2, min(nrows, 4096)), rng.choice([1, 2]))]
+    hot = [h for h in coregen.gen_hot(rng, info, 1) if all(h[2] != p[2] for p in priv)] or [(0, 0, 0), (0, 0, 1)]
+    ncolw = 1 << (info["colbits"] - info["align"])
+    wide_native = []
+    for (rk, bk, row) in priv:
+        for _ in range(rng.choice([1, 2, 3])):
+            colw = rng.randrange(ncolw)
+            col = colw << info["align"]
+            if info["colbits"] > 10:
+                col = (col & 0x3FF) | ((col >> 10) << 11)
+            wide_native.append(amap.inv(rk, bk, row, col))
+    n = rng.choice([2, 6, 15, 40]) if tier == "quick" else rng.choice([5, 20, 60, 120])
+    if udw <= ndw:
+        ops = gen_ops(rng, n, ratio, True, udw // 8, "both", 0, wide=wide_native)
+    else:
+        # user word a covers native words a*ratio .. a*ratio+ratio-1
+        ops = gen_ops(rng, n, ratio, False, udw // 8, "both", 0, wide=sorted(set(w // ratio for w in wide_native)))
+    ports = [{"ops": ops}]
+    if cdc:
+        ports[0]["rready"] = gen_pattern(rng)
+    for i in range(1, len(core["ports"])):
+        ports.append({"ops": coregen.gen_port_ops(rng, amap, info, rng.choice([3, 10, 40]), hot, id0=1 + 100000 * i)})
+    total = sum(len(p["ops"]) for p in ports)
+    delay = sum(o.get("delay", 0) for p in ports for o in p["ops"])
+    scn = {"variant": "core", "core": core, "ports": ports,
+           "limits": {"max_cycles": 6000 + (100 + 30 * ratio) * total * (4 if cdc else 1) + delay * 8, "tail": 300 if cdc else 80}}
+    if clocks:
+        scn["clocks"] = clocks
+    return scn
+
+
 def gen(rng, tier, index):
+    if rng.random() < 0.12:
+        return gen_core_variant(rng, tier)
     up = rng.random() < 0.65
     if up:
         ratio = rng.choice([2, 2, 4, 4, 8, 16, 32])
